@@ -126,7 +126,8 @@ def r_C03fgh(root):
                         out.append(Finding("C03", "C03.h", rel, qual, ast.unparse(n), "meeting an already visited class ends the whole search instead of skipping that class: the remaining inheritors are never examined", witness="Elem: Drawable | Printable; Drawable: Circle | Square; Printable: Circle | Page; reference to Elem naming a Page"))
     # ---------------- C03.d decision table of textx_isinstance
     ti = find(t, "textx_isinstance")
-    names, rows = atoms.table(ti.body, feasible=None)
+    _fit = sem.info(ti)
+    names, rows = atoms.table(ti.body, feasible=None, expand=lambda test: _fit.expand(test, at=test))
     def cls_atom(a):
         u = a.replace(" ", "")
         if u in ("obj_cls.__name__=='OBJECT'", "'OBJECT'==obj_cls.__name__"): return "object"
@@ -138,6 +139,12 @@ def r_C03fgh(root):
         return None
     unk = [a for a in names if cls_atom(a) is None]
     if unk: raise AnalysisError("textx_isinstance: guard outside the supported atom set: %s" % unk)
+    for a in names:
+        if cls_atom(a) == "fqn":
+            inst += 1
+            okq = a.replace(" ", "") in ("obj_cls._tx_fqn==obj._tx_fqn", "obj._tx_fqn==obj_cls._tx_fqn")
+            ob("C03", "C03.d", M, "textx_isinstance", "qualified-name conformance compares the full names: " + a, okq)
+            if not okq: out.append(Finding("C03", "C03.d", M, "textx_isinstance", a, "conformance by qualified name does not compare the two full qualified names (a projection such as the last component makes same-named rules of different grammars conform to each other)", witness="a grammar importing another grammar, both defining a rule Item; a reference [Item] and an object of the imported lib.Item"))
     for want_true, cond in (("object", lambda v: v("object")), ("inst", lambda v: v("inst")), ("fqn", lambda v: v("fqn") and v("hasfqn"))):
         inst += 1
         bad = []
